@@ -278,6 +278,25 @@ def rule_disjunction(run, F, cfg):
            "member is Empty (any(..Empty..) == false); otherwise a match-all rule fused with "
            "ordinary patterns would silently stop matching everything",
            site=fus.loc(arms[0][0]) if arms else fus.loc(0), config=cfg)
+    # (a') alternatives of an already fused member are carried over one by one
+    bodies = [fus] + list(F.closures_of(SPG + "fusion"))
+    carried = {"Simple": False, "AnyOf": False}
+    joined = []
+    for fb in bodies:
+        for b, t in fb.calls():
+            cal = strip_generics(t["callee"])
+            e = fb.expr_call(t)
+            if cal.endswith("FilterPart::string_view"):
+                joined.append(fb.loc(b))
+            if re.search(r"\.filter@Simple\.0\b", e) and re.search(r"::(push|clone|to_string|to_owned|extend)", cal):
+                carried["Simple"] = True
+            if re.search(r"\.filter@AnyOf\.0\b", e) and re.search(r"::(extend_from_slice|extend|iter|into_iter|to_vec|clone|append)", cal):
+                carried["AnyOf"] = True
+    run.ob("C05.4.disjunction", "alternatives-carried-individually", all(carried.values()) and not joined,
+           "fusion flattens its members pattern by pattern: Simple(s) contributes s, AnyOf(v) contributes "
+           "every element of v; nothing goes through FilterPart::string_view (which joins an AnyOf with `|` "
+           "into one literal that can never match)" + (f"; string_view called at {joined}" if joined else ""),
+           site=joined[0] if joined else fus.loc(0), config=cfg, detail=f"carried: {carried}")
     cl = [c for c in F.closures_of(SPG + "fusion")]
     tests_empty = any(any(t["k"] == "switch" and "discr(" in c.expr_operand(t["discr"]) for t in
                           [c.blocks[b]["t"] for b in c.normal_blocks()]) for c in cl)
